@@ -4,3 +4,4 @@ import MirosModel.Drive.Conc
 import MirosModel.Drive.Fabric
 import MirosModel.Drive.AO
 import MirosModel.Drive.PubSub
+import MirosModel.Drive.Instr
